@@ -164,6 +164,30 @@ def gen_case(rng, kind, tier):
     return case
 
 
+def band_case(rng):
+    """a leftover bucket whose share lies between 1/(2q) and min_freq/2, q = round(1/min_freq) > 1/min_freq:
+    rare by the property's threshold (min_freq/2) but not in the unit the quantile search uses"""
+    mf = rng.choice([0.15, 0.28, 0.22, 0.35, 0.06, 0.13, 0.18, 0.29])
+    q = round(1 / mf)
+    n = rng.choice([200, 400, 600, 1000])
+    lo, hi = math.ceil(n / (2 * q)), math.ceil(n * mf / 2) - 1
+    a = rng.randint(lo, hi) if hi >= lo else max(1, hi)
+    rest = n - a
+    k = max(1, min(q, int(rest // math.ceil(n / q))))
+    base = [rest // k] * k
+    base[0] += rest - sum(base)
+    pos = rng.randrange(k + 1)
+    counts = base[:pos] + [a] + base[pos:]
+    xs = [float(v * 3 + 1) for v, c in enumerate(counts) for _ in range(c)]
+    rng.shuffle(xs)
+    lo_, hi_ = min(xs), max(xs)
+    rank = [(x - lo_) / (hi_ - lo_) for x in xs]
+    binary = rng.random() < 0.6
+    return {"kind": "quant", "cls": rng.choice(["QuantitativeDiscretizer", "Discretizer"]),
+            "min_freq": float(mf).hex(), "binary": binary, "shape": "band", "x": [enc(x) for x in xs],
+            "y": gen_target(rng, rank, binary), "order": None, "extra": False}
+
+
 def o1_case(cls="ContinuousDiscretizer"):
     xs = [float(v) for v, c in enumerate(O1_WITNESS) for _ in range(c)]
     return {"kind": "cont" if cls == "ContinuousDiscretizer" else "quant", "cls": cls,
@@ -255,6 +279,8 @@ class C09(Prop):
         for kind in ("cont", "quant", "ord", "cat"):
             for _ in range(per_kind):
                 cases.append(gen_case(rng, kind, tier))
+        for _ in range(24 if tier == "quick" else 400):
+            cases.append(band_case(rng))
         return cases
 
     def search_cases(self, rng, neighbours, rnd):
